@@ -611,3 +611,82 @@ def _install2(ex):
 
 
 Executor.install_env = _install2
+
+
+# ------------------------------------------------------------------ sync.Map: association list with (possibly symbolic) key equality
+def smap(ex, p):
+    key = id(p.cont)
+    m = ex.smaps.get(key)
+    if m is None:
+        m = {"keep": p, "entries": []}
+        ex.smaps[key] = m
+    return m
+
+
+def smap_find(ex, m, k):
+    for n, (kk, vv) in enumerate(m["entries"]):
+        e = ex.eq(kk, k)
+        if e is True or (e is not False and ex.branch(e)):
+            return n
+    return -1
+
+
+@exact("(*sync.Map).Load")
+def smap_load(ex, g, fid, args):
+    m = smap(ex, args[0])
+    n = smap_find(ex, m, args[1])
+    if n < 0:
+        return Tup([None, False])
+    return Tup([m["entries"][n][1], True])
+
+
+@exact("(*sync.Map).Store")
+def smap_store(ex, g, fid, args):
+    m = smap(ex, args[0])
+    n = smap_find(ex, m, args[1])
+    if n < 0:
+        m["entries"].append([args[1], args[2]])
+    else:
+        m["entries"][n][1] = args[2]
+    return None
+
+
+@exact("(*sync.Map).LoadOrStore")
+def smap_loadorstore(ex, g, fid, args):
+    m = smap(ex, args[0])
+    n = smap_find(ex, m, args[1])
+    if n < 0:
+        m["entries"].append([args[1], args[2]])
+        return Tup([args[2], False])
+    return Tup([m["entries"][n][1], True])
+
+
+@exact("(*sync.Map).Delete")
+def smap_delete(ex, g, fid, args):
+    m = smap(ex, args[0])
+    n = smap_find(ex, m, args[1])
+    if n >= 0:
+        del m["entries"][n]
+    return None
+
+
+@exact("(*sync.Map).LoadAndDelete")
+def smap_loadanddelete(ex, g, fid, args):
+    m = smap(ex, args[0])
+    n = smap_find(ex, m, args[1])
+    if n < 0:
+        return Tup([None, False])
+    v = m["entries"][n][1]
+    del m["entries"][n]
+    return Tup([v, True])
+
+
+_old_install3 = Executor.install_env
+
+
+def _install3(ex):
+    _old_install3(ex)
+    ex.smaps = {}
+
+
+Executor.install_env = _install3
